@@ -545,3 +545,100 @@ mod tests {
         assert_eq!(m2, n4);
     }
 }
+
+// ---------------------------------------------------------------------------------------------
+// Position family (DESIGN §2.1): small cores wrapped in every nesting context
+// ---------------------------------------------------------------------------------------------
+
+#[derive(Clone, Copy, PartialEq, Eq, Debug)]
+enum Wrap {
+    Alt1,
+    Alt2L,
+    Alt2R,
+    Rep12,
+    Rep0,
+    Rep1,
+}
+
+#[derive(Clone, Copy, PartialEq, Eq, Debug)]
+enum Fill {
+    None,
+    OuterLeft,
+    OuterRight,
+    InnerLeft,
+    InnerRight,
+}
+
+fn wrap_with(x: &Seq, w: Wrap, f: Fill, y: &Kind) -> Seq {
+    let yn = || Node::new(y.clone());
+    let mut inner: Seq = vec![];
+    if f == Fill::InnerLeft {
+        inner.push(yn());
+    }
+    inner.extend(x.iter().cloned());
+    if f == Fill::InnerRight {
+        inner.push(yn());
+    }
+    let b = || vec![Node::new(lit("b"))];
+    let node = match w {
+        Wrap::Alt1 => Node::new(Kind::Alt(vec![inner])),
+        Wrap::Alt2L => Node::new(Kind::Alt(vec![inner, b()])),
+        Wrap::Alt2R => Node::new(Kind::Alt(vec![b(), inner])),
+        Wrap::Rep12 => Node::new(Kind::Rep { body: inner, bounds: Bounds::Range("1".into(), Some("2".into())) }),
+        Wrap::Rep0 => Node::new(Kind::Rep { body: inner, bounds: Bounds::None }),
+        Wrap::Rep1 => Node::new(Kind::Rep { body: inner, bounds: Bounds::Exact("1".into()) }),
+    };
+    let mut out: Seq = vec![];
+    if f == Fill::OuterLeft {
+        out.push(yn());
+    }
+    out.push(node);
+    if f == Fill::OuterRight {
+        out.push(yn());
+    }
+    out
+}
+
+/// Every core wrapped in every nesting context, nested up to `depth` levels. `full` selects the
+/// larger context set (six wrappers, fillers a / *), otherwise four wrappers and fillers a /.
+pub fn position_family(depth: usize, full: bool) -> Vec<Seq> {
+    let cores: Vec<Seq> = [
+        "a", "/", "*", "/a", "a/", "*a", "a*", "**/a", "a/**", "/**/a", "a/**/a", "/a/", "*/", "/*", "**/", "/**", "(?i)a",
+    ]
+    .iter()
+    .filter_map(|t| crate::syntax::parse(t).ok())
+    .map(|s| strip(&s))
+    .collect();
+    let wraps: Vec<Wrap> = if full {
+        vec![Wrap::Alt1, Wrap::Alt2L, Wrap::Alt2R, Wrap::Rep12, Wrap::Rep0, Wrap::Rep1]
+    }
+    else {
+        vec![Wrap::Alt1, Wrap::Alt2R, Wrap::Rep12, Wrap::Rep0]
+    };
+    let fillers: Vec<Kind> = if full { vec![lit("a"), Kind::Sep, Kind::Zom(false)] } else { vec![lit("a"), Kind::Sep] };
+    let mut contexts: Vec<(Wrap, Fill, Kind)> = vec![];
+    for w in &wraps {
+        contexts.push((*w, Fill::None, Kind::Sep));
+        for f in [Fill::OuterLeft, Fill::OuterRight, Fill::InnerLeft, Fill::InnerRight] {
+            for y in &fillers {
+                contexts.push((*w, f, y.clone()));
+            }
+        }
+    }
+    let mut level: Vec<Seq> = cores;
+    let mut out: Vec<Seq> = vec![];
+    for _ in 0..depth {
+        let mut next = vec![];
+        for x in &level {
+            for (w, f, y) in &contexts {
+                let s = crate::astops::normalize(&wrap_with(x, *w, *f, y));
+                if is_canonical(&s) {
+                    next.push(s);
+                }
+            }
+        }
+        out.extend(next.iter().cloned());
+        level = next;
+    }
+    out
+}
